@@ -196,6 +196,8 @@ void World::start_bus(const std::string &config_xml, int uniq_major, int uniq_mi
   tr.ev("bus started");
 }
 
+void World::set_unique_counter(int major, int minor) { _bus_verif_set_unique_name_counter(major, minor); }
+
 void World::rewrite_config(const std::string &config_xml) {
   std::string path = scratch + "/bus.conf";
   FILE *f = fopen(path.c_str(), "w");
